@@ -961,7 +961,7 @@ pub fn run(ctx: &Ctx, prop: &str) -> Report {
     match prop {
         "C04" | "C05" => {
             let t = std::time::Instant::now();
-            let n_hist = ctx.budget(20, 4_000, 400_000) as usize;
+            let n_hist = ctx.budget(20, 30_000, 3_000_000) as usize;
             let shards = if small { 2 } else { 64 };
             let r = par_shards(ctx, shards, |s| {
                 let mut rep = Report::new();
@@ -1013,7 +1013,7 @@ pub fn run(ctx: &Ctx, prop: &str) -> Report {
             });
             stage("midi.catalogue_with_realtime_insertions", r, &mut rep, t);
             let t = std::time::Instant::now();
-            let n_hist = ctx.budget(10, 20_000, 2_000_000) as usize;
+            let n_hist = ctx.budget(10, 100_000, 8_000_000) as usize;
             let shards = if small { 2 } else { 64 };
             let r = par_shards(ctx, shards, |s| {
                 let mut rep = Report::new();
@@ -1059,7 +1059,7 @@ pub fn run(ctx: &Ctx, prop: &str) -> Report {
             });
             stage("midi.controller_table_all_channels", r, &mut rep, t);
             let t = std::time::Instant::now();
-            let n_hist = ctx.budget(6, 3_000, 300_000) as usize;
+            let n_hist = ctx.budget(6, 20_000, 2_000_000) as usize;
             let shards = if small { 1 } else { 64 };
             let r = par_shards(ctx, shards, |s| {
                 let mut rep = Report::new();
